@@ -38,6 +38,7 @@ func runC19(c *Ctx) {
 	// API filled at registration are keyed by
 	ruleContentTypeAccessorParses(c, "R19.2")
 	ruleUntypedGateForEveryBody(c, "R19.2")
+	ruleEveryRecordedMethodRouted(c, "R19.2")
 	// the defaults the router adds to every route's lists are the API's own, each from its own field (validation judged
 	// DefaultConsumes against the consumers and DefaultProduces against the producers)
 	ruleRoutableAPIDelegates(c, "R19.2", "DefaultConsumes", "DefaultProduces", "ConsumersFor", "ProducersFor")
